@@ -15,15 +15,15 @@ are stated and are what the Rust constructors guarantee:
   `unsatFree c`      no `UNSATISFIABLE` leaf                            (Model/Concrete.lean)
   `NF p`             `p` is in the normal form that `normalized` produces (Model/Semantic.lean)
 
-History: the first version of this file refuted the full-strength `entails` statement (F6:
-constants were matched before normalising) and `lift` on non-binary `and` (2-of-n instead of
-n-of-n, panics on 0/1 children); both are repaired in /repo (`fix:` commits), the model follows
-the repaired code and both theorems now hold at full strength.
+  `threshKPos c`     every concrete `thresh` has `k ≥ 1` (every `Threshold`)  (Model/Concrete.lean)
 
-Remaining finding of the faithful model (kernel-checked witness below):
-  F10  `check_timelocks` over-approximates through `UNSATISFIABLE` branches —
-       `check_timelocks_exact_full` is FALSE; sound always, exact for `UNSATISFIABLE`-free
-       policies, and exact for all well-formed policies w.r.t. purely structural paths.
+History: earlier versions of this file refuted four full-strength statements on the then
+current code — `entails` on un-normalised constants (F6), `lift` of non-binary `and`, exactness
+of `check_timelocks` through `UNSATISFIABLE` (F10), and `lift` refusing policies that
+`check_timelocks` accepts (per-node re-check).  All four were repaired in /repo (`fix:`
+commits); the model follows the repaired code and the theorems hold at full strength
+(`entails_iff`, `concrete_lift_equiv`, `check_timelocks_exact`, `concrete_lift_total`).  No
+finding remains open for this property.
 -/
 import MsVerif.Lemmas.PolicyOps
 import MsVerif.Lemmas.PolicyMinKeys
@@ -187,38 +187,31 @@ theorem concrete_lift_holds (c : CPolicy) (s : Policy) (h : lift c = .ok s) (W :
     holds W s = holdsCW W c :=
   lift_holdsA W.val c s h
 
-/-- `lift` fails exactly when `check_timelocks` does, provided no `and` / `or` is empty (an
-empty one has no `Threshold` and is refused: `concrete_lift_empty_refused`) -/
-theorem concrete_lift_total (c : CPolicy) (hn : andOrNonEmpty c = true) :
+/-- a concrete policy is refused (with the timelock error) exactly when some satisfiable path
+mixes height and time locks, and lifted otherwise — every concrete policy without an empty
+`and` / `or` (those have no `Threshold`: `concrete_lift_empty_refused`) whose thresholds have
+`k ≥ 1` (every `Threshold`) -/
+theorem concrete_lift_total (c : CPolicy) (hn : andOrNonEmpty c = true)
+    (hk : threshKPos c = true) :
+    (hasMixedPath c = true ∧ lift c = .err) ∨ (hasMixedPath c = false ∧ ∃ s, lift c = .ok s) := by
+  have hex := checkTimelocks_exact c hk
+  rcases lift_total c hn with ⟨h1, h2⟩ | ⟨h1, h2⟩
+  · exact Or.inl ⟨hex.mp h1, h2⟩
+  · right
+    refine ⟨?_, h2⟩
+    cases hm : hasMixedPath c
+    · rfl
+    · rw [hex.mpr hm] at h1; simp at h1
+
+/-- `lift` and `check_timelocks` agree (no `k ≥ 1` needed) -/
+theorem concrete_lift_refuses_iff_check (c : CPolicy) (hn : andOrNonEmpty c = true) :
     (checkTimelocks c = false ∧ lift c = .err)
     ∨ (checkTimelocks c = true ∧ ∃ s, lift c = .ok s) := lift_total c hn
 
 /-- the lifted policy is in normal form -/
 theorem concrete_lift_normal_form (c : CPolicy) (s : Policy) (h : lift c = .ok s) :
-    NF s = true := by
-  cases c with
-  | unsat => simp [lift] at h; subst h; rfl
-  | trivial => simp [lift] at h; subst h; rfl
-  | atom a => simp [lift] at h; subst h; rfl
-  | and subs =>
-    rw [lift] at h; split at h
-    · simp at h
-    · obtain ⟨ps, _, hk⟩ := collectLift_ok h
-      split at hk
-      · simp only [LiftRes.ok.injEq] at hk; subst hk; exact normalized_NF _
-      · simp at hk
-  | or subs =>
-    rw [lift] at h; split at h
-    · simp at h
-    · obtain ⟨ps, _, hk⟩ := collectLift_ok h
-      split at hk
-      · simp only [LiftRes.ok.injEq] at hk; subst hk; exact normalized_NF _
-      · simp at hk
-  | thresh k subs =>
-    rw [lift] at h; split at h
-    · simp at h
-    · obtain ⟨ps, _, hk⟩ := collectLift_ok h
-      simp only [LiftRes.ok.injEq] at hk; subst hk; exact normalized_NF _
+    NF s = true :=
+  liftUnchecked_NF c s ((lift_ok_iff c s).mp h).2
 
 def LiftRes.isErrThreshold : LiftRes → Bool
   | .errThreshold => true
@@ -230,53 +223,46 @@ theorem concrete_lift_empty_refused :
     ∧ LiftRes.isErrThreshold (lift (.or [])) = true
     ∧ LiftRes.isErrThreshold (lift (.and [.atom (.key 0), .or []])) = true := by decide
 
+/-- the former refusal witnesses are lifted now: the unreachable mixed sub-policy disappears -/
+theorem concrete_lift_former_refusals :
+    lift (.or [.atom (.key 0), .and [.unsat, .and [.atom (.older 1), .atom (.older 4194305)]]])
+      = .ok (.atom (.key 0))
+    ∧ lift (.and [.unsat, .and [.atom (.older 1), .atom (.older 4194305)]]) = .ok .unsat := by
+  constructor <;> rfl
+
 /-! ## T7 — `check_timelocks` -/
 
 /-- soundness, ALL policies: if some satisfiable path needs a height-based and a time-based
 lock of the same kind, `check_timelocks` reports it -/
 theorem check_timelocks_sound (c : CPolicy) (h : hasMixedPath c = true) :
-    checkTimelocks c = false := by
-  obtain ⟨s, hs, hm⟩ := List.any_eq_true.mp h
-  have := (timelockInfo_sound false c s hs).2 hm
-  simp [checkTimelocks, this]
+    checkTimelocks c = false := checkTimelocks_sound c h
 
-/-- the property as stated: it fires exactly when such a satisfiable path exists -/
-def check_timelocks_exact_full : Prop :=
-  ∀ c : CPolicy, WFC c = true → (checkTimelocks c = false ↔ hasMixedPath c = true)
+/-- exactness: `check_timelocks` refuses iff some satisfiable path mixes height and time locks
+— every concrete policy (`UNSATISFIABLE` anywhere, `and` / `or` of any arity including empty,
+thresholds with `k > n`); the only hypothesis is `k ≥ 1`, which every `Threshold` satisfies -/
+theorem check_timelocks_exact (c : CPolicy) (hk : threshKPos c = true) :
+    checkTimelocks c = false ↔ hasMixedPath c = true := checkTimelocks_exact c hk
 
-/-- proved for `UNSATISFIABLE`-free policies.  Missing for the full statement: paths that run
-through an `UNSATISFIABLE` leaf are counted although nothing satisfies them (F10, below). -/
-theorem check_timelocks_exact_partial (c : CPolicy) (hw : WFC c = true)
-    (hu : unsatFree c = true) : checkTimelocks c = false ↔ hasMixedPath c = true := by
+/-- the private `timelock_info` is `None` exactly for policies without any satisfaction -/
+theorem timelock_info_none_iff (c : CPolicy) :
+    timelockInfo c = none ↔ ∀ v, holdsC v c = false := by
+  rw [(claim_all c).1]
   constructor
+  · intro h v; rw [holdsC_eq_good, h]; rfl
   · intro h
-    have hc : (timelockInfo c).containsCombination = true := by
-      simpa [checkTimelocks] using h
-    obtain ⟨s, hs, hm⟩ := (timelockInfo_exact c hw).2.2 hc
-    rw [hasMixedPath, selsC_unsatFree c hu]
-    exact List.any_eq_true.mpr ⟨s, hs, hm⟩
-  · exact check_timelocks_sound c
+    have hv := h (fun _ => true)
+    rw [holdsC_eq_good] at hv
+    cases hs : selsC false c with
+    | nil => rfl
+    | cons s ss =>
+      rw [hs] at hv
+      simp [good] at hv
 
-/-- what the check computes exactly, for ALL well-formed policies: some purely structural path
-(one that may run through `UNSATISFIABLE` leaves) mixes height and time -/
-theorem check_timelocks_exact_structural (c : CPolicy) (hw : WFC c = true) :
-    checkTimelocks c = false ↔ ∃ s ∈ selsC true c, mixedLocks s = true := by
-  constructor
-  · intro h
-    have hc : (timelockInfo c).containsCombination = true := by
-      simpa [checkTimelocks] using h
-    exact (timelockInfo_exact c hw).2.2 hc
-  · intro ⟨s, hs, hm⟩
-    have := (timelockInfo_sound true c s hs).2 hm
-    simp [checkTimelocks, this]
-
-/-- F10: `and(UNSATISFIABLE, and(older(1), older(4194305)))` is refused although it has no
-satisfiable path at all -/
-theorem check_timelocks_exact_full_false : ¬ check_timelocks_exact_full := by
-  intro h
-  have := (h (.and [.unsat, .and [.atom (.older 1), .atom (.older 4194305)]]) (by decide)).mp
-    (by decide)
-  revert this
+/-- the former F10 witnesses are accepted now, a genuinely mixed policy is still refused -/
+theorem check_timelocks_former_F10_witnesses :
+    checkTimelocks (.and [.unsat, .and [.atom (.older 1), .atom (.older 4194305)]]) = true
+    ∧ checkTimelocks (.thresh 3 [.atom (.older 1), .atom (.older 4194305), .unsat]) = true
+    ∧ checkTimelocks (.thresh 2 [.atom (.older 1), .atom (.older 4194305), .unsat]) = false := by
   decide
 
 /-- the satisfiable paths of a concrete policy are exactly its ways of being satisfied (so
@@ -307,7 +293,8 @@ example : andOrNonEmpty (.and [.atom (.key 0), .or [.atom (.key 1), .atom (.olde
 example : lift (.and [.atom (.key 0), .atom (.key 1), .atom (.key 2)])
     = .ok (.thresh 3 [.atom (.key 0), .atom (.key 1), .atom (.key 2)]) := by rfl
 example : lift (.and [.atom (.key 0)]) = .ok (.atom (.key 0)) := by rfl
-example : unsatFree (.thresh 2 [.atom (.older 1), .atom (.older 4194305), .atom (.key 0)]) = true
+example : threshKPos (.thresh 2 [.atom (.older 1), .atom (.older 4194305), .unsat]) = true
+    ∧ unsatFree (.thresh 2 [.atom (.older 1), .atom (.older 4194305), .atom (.key 0)]) = true
     ∧ checkTimelocks (.thresh 2 [.atom (.older 1), .atom (.older 4194305), .atom (.key 0)]) = false
     ∧ checkTimelocks (.or [.atom (.older 1), .atom (.older 4194305)]) = true := by decide
 
